@@ -26,10 +26,15 @@ type Case struct {
 	Burst   int    `json:"produce_steps_per_round"`
 	Faults  string `json:"outage_fault"` // error | timeout | toobig | hdr-only | data-only
 	Rounds  int    `json:"rounds_after_outage"`
+	// Restart: "" never | "clean" a new Manager on the same store after some rounds | "crash" a production step is cut
+	// after durable write CrashK and the node restarts
+	Restart string `json:"restart"`
+	Every   int    `json:"restart_every_rounds"`
+	CrashK  int    `json:"crash_after_writes"`
 }
 
 func (c Case) key() string {
-	return fmt.Sprintf("l%d i%d %s o%d b%d %s r%d", c.Limit, c.Initial, c.Pattern, c.Outage, c.Burst, c.Faults, c.Rounds)
+	return fmt.Sprintf("l%d i%d %s o%d b%d %s r%d %s/%d/%d", c.Limit, c.Initial, c.Pattern, c.Outage, c.Burst, c.Faults, c.Rounds, c.Restart, c.Every, c.CrashK)
 }
 
 type sim struct {
@@ -117,13 +122,22 @@ func decodeHeight(blob []byte) (uint64, bool, bool) {
 func run(r *vk.Run, c Case) {
 	ctx := context.Background()
 	s := &sim{r: r, c: c, ctx: ctx, seq: world.NewSeqDouble(), da: world.NewDADouble(), t: world.GenesisTime}
-	n, err := world.NewNode(ctx, world.NodeOpts{Aggregator: true, InitialHeight: c.Initial, MaxPending: c.Limit}, world.NewKeys("proposer"),
-		world.NewMemDS(world.NewImage()), world.NewExecDouble(), s.seq, s.da, nil)
-	if err != nil {
+	im := world.NewImage()
+	exec := world.NewExecDouble()
+	keys := world.NewKeys("proposer")
+	start := func() error {
+		n, err := world.NewNode(ctx, world.NodeOpts{Aggregator: true, InitialHeight: c.Initial, MaxPending: c.Limit}, keys, world.NewMemDS(im), exec, s.seq, s.da, nil)
+		if err != nil {
+			return err
+		}
+		s.n = n
+		return nil
+	}
+	if err := start(); err != nil {
 		r.Violation("startup", err.Error(), c)
 		return
 	}
-	s.n = n
+	roundNo := 0
 	wit := func() any { return map[string]any{"case": c, "declined": s.declined, "produced": s.produced} }
 	round := func(faultH, faultD bool) {
 		if faultH {
@@ -142,6 +156,24 @@ func run(r *vk.Run, c Case) {
 		s.da.ClearSubmitScript()
 		for i := 0; i < c.Burst; i++ {
 			s.produceStep()
+		}
+		roundNo++
+		if c.Restart != "" && c.Every > 0 && roundNo%c.Every == 0 {
+			if c.Restart == "crash" {
+				// the process dies inside a production step, after CrashK durable writes
+				if s.seq.Pending() == 0 {
+					s.t = s.t.Add(time.Second)
+					s.seq.Push(world.SeqResp{Kind: world.SeqEmpty, Time: s.t})
+				}
+				s.n.DS.CrashAfter(c.CrashK)
+				_ = s.n.M.VerifPublishBlock(ctx)
+				r.Hit("restart-after-crash")
+			} else {
+				r.Hit("clean-restart")
+			}
+			if err := start(); err != nil {
+				s.viol = append(s.viol, "restart failed: "+err.Error())
+			}
 		}
 	}
 	// outage
@@ -191,7 +223,7 @@ func (c Case) faultKind() string {
 // Run is the check entry point.
 func Run(r *vk.Run) {
 	world.Silence()
-	r.Rule = "seeded runs of a real aggregator with MaxPendingHeadersAndData = limit in {1,2,3,5}: rounds of (one header-submission iteration, one data-submission iteration, 1-4 production steps); a DA outage of 0-6 rounds (all submissions fail, or only the header / only the data stream), then an accepting DA layer; block patterns all-empty, all-non-empty, alternating, long empty tails; initial height {1,4}. Safety per production step: declined => >= limit blocks are beyond the accepted prefix of the header or of the data stream (empty blocks need no data blob); produced => fewer than limit. Liveness: R accepting rounds raise the height by >= R-1. non-trivial = at least one declined step; distinct by parameter tuple"
+	r.Rule = "seeded runs of a real aggregator with MaxPendingHeadersAndData = limit in {1,2,3,5}: rounds of (one header-submission iteration, one data-submission iteration, 1-4 production steps); a DA outage of 0-6 rounds (all submissions fail, or only the header / only the data stream), then an accepting DA layer; block patterns all-empty, all-non-empty, alternating, long empty tails; initial height {1,4}; in half of the runs the node is restarted every 1-4 rounds (clean, or by a crash inside a production step after 0-6 durable writes), also during the outage. Safety per production step: declined => >= limit blocks are beyond the accepted prefix of the header or of the data stream (empty blocks need no data blob); produced => fewer than limit. Liveness: R accepting rounds raise the height by >= R-1. non-trivial = at least one declined step; distinct by parameter tuple"
 	r.Assume("a submission round is atomic in the harness: header iteration directly followed by data iteration (the two ticker loops of the node have the same period); production steps do not interleave between them")
 	rng := r.Rand("cases")
 	n := r.N(300, 4000)
@@ -200,7 +232,8 @@ func Run(r *vk.Run) {
 	var cases []Case
 	for i := 0; i < n; i++ {
 		cases = append(cases, Case{ID: i, Limit: []uint64{1, 2, 3, 5}[rng.Intn(4)], Initial: []uint64{1, 4}[rng.Intn(2)],
-			Pattern: patterns[rng.Intn(len(patterns))], Outage: rng.Intn(7), Burst: 1 + rng.Intn(4), Faults: faults[rng.Intn(len(faults))], Rounds: 4 + rng.Intn(8)})
+			Pattern: patterns[rng.Intn(len(patterns))], Outage: rng.Intn(7), Burst: 1 + rng.Intn(4), Faults: faults[rng.Intn(len(faults))], Rounds: 4 + rng.Intn(8),
+			Restart: []string{"", "", "clean", "crash"}[rng.Intn(4)], Every: 1 + rng.Intn(4), CrashK: rng.Intn(7)})
 	}
 	var wg sync.WaitGroup
 	ch := make(chan Case)
